@@ -20,28 +20,31 @@ META = {
         "final model, PQR lines, unassigned list and log"
     ),
     "level_text": (
-        "Proved in Coq for EVERY sequence of protocol steps and oracle answers (any length): for each optimisation-"
-        "object instance of the generated table (HIS/HID/HIE/HIP, ASN, GLN = Flip; SER, THR, TYR, CYS = Alcoholic; "
-        "water; ASH, GLH = Carboxylic + cleanup; each at N-terminal/internal/C-terminal position, charged and neutral "
-        "termini; atom names as the real pipeline presents them, regenerated from /repo each run) the residue is never "
-        "corrupted (no KeyError, no name collision) and after complete its names are exactly the expected set: no "
-        "duplicate, no *FLIP/LP*/FLIP placeholder, no hydrogen missing. Also proved: hits++misses of apply_force_field "
-        "is a permutation of the atoms (C01's result), and (generated table) among run-time patches only 5TERM removes "
-        "heavy atoms - exactly P,O1P,O2P. NOT proved (explored only): the same protocol statement for residues outside "
-        "the table (arbitrary name lists - stated in Properties/C03.v as open), repair_heavy/add_hydrogens accounting, "
-        "the ligand step (C16-F4), and the end-to-end statement, which is searched by an outer join on real runs over "
-        "residue types x positions x protonation variants x options x six force fields. Refuted in the model: a water "
-        "arriving with H2 but no H1 never gets H1 (real run aborts loudly on the residue charge)."
+        "Proved in Coq for EVERY sequence of protocol steps and oracle answers (any length): Flip, Alcoholic and Water for "
+        "ARBITRARY residues - any ordered atom-name list meeting a boolean well-formedness predicate (names distinct, none a "
+        "*FLIP/LP*/FLIP placeholder, moveable names among them; Water: not H2 without H1): the residue is never corrupted (no "
+        "KeyError, no name collision) and complete leaves exactly the expected names, no duplicate, no placeholder, no hydrogen "
+        "missing; the 57 generated table instances (every optimisable residue type x position x terminus charge, regenerated "
+        "from /repo each run) meet the predicate. Carboxylic (ASH, GLH + cleanup) is proved per table instance only "
+        "(reachable-set certificate, C03_carboxylic_names_partial). Also proved: the name-list abstraction of Residue is exact "
+        "while its guards hold (object list + dict stay consistent over any operation sequence; KeyError otherwise); "
+        "repair_heavy + add_hydrogens at name level: for every residue and reference, if the placement oracles never fail, "
+        "extras outside the reference are exactly the logged deletions and the result is exactly the reference's atoms; for "
+        "every amino-acid template the seenmap loop rebuilds a whole missing side chain from N,CA,C,O (generated obligation); "
+        "hits++misses is a permutation of the atoms; with --ligand no atom is written twice (C16's theorem); among run-time "
+        "patches only 5TERM removes heavy atoms, exactly P,O1P,O2P. NOT proved (explored only): Carboxylic for arbitrary "
+        "residues, that the repair loop's fuel always suffices, OP1/OP2 aliasing in repair, and the end-to-end statement, "
+        "searched by an outer join on real runs over residue types x positions x protonation variants x options x six force "
+        "fields. Refuted in the model: a water arriving with H2 but no H1 never gets H1 (real run aborts loudly)."
     ),
     "level_note": (
-        "Trusted: Coq kernel+vm_compute; gen/c03_table.py (ast scan of apply_patch literals, instance observation "
-        "through the monitor); the hand model Model/NameProtocol.v, tied to hydrogens/structures.py by trace inclusion "
-        "on monitored real runs (per unit call: emitted create/remove/rename sequence equal, final names equal) incl. "
-        "runs whose is_hbond answers are randomly vetoed or coin-flipped, and on DRIVEN walks: the model's reachable ORDERED name states "
-        "are enumerated in Coq (explore_p) and real Flip/Alcoholic/Water/Carboxylic objects are taken along a label path to each "
-        "(oracles scripted), then completed - coverage reached/total is in the evidence distribution; the monitor (monkeypatches Residue.add_atom/remove_atom/"
-        "rename_atom and the protocol methods); oracle assumption: Carboxylic.finalize finds a hydrogen with energy "
-        "< 999.99 whenever hlist is non-empty."
+        "Trusted: Coq kernel+vm_compute; gen/c03_table.py (ast scan of apply_patch literals, instance observation through "
+        "the monitor, get_nearest_bonds cross-checked against a re-statement); the hand model Model/NameProtocol.v, tied to "
+        "hydrogens/structures.py by trace inclusion on monitored real runs (per unit call: emitted create/remove/rename "
+        "sequence equal, final names equal) incl. runs whose is_hbond answers are vetoed or coin-flipped and DRIVEN walks that "
+        "take real protocol objects to every reachable ordered name state of the model; tied to Biomolecule.repair_heavy / "
+        "add_hydrogens per residue (ordered names after, logged extras, ValueError text) on every monitored run; the monitors "
+        "(monkeypatches); oracle assumption: Carboxylic.finalize finds a hydrogen with energy < 999.99 whenever hlist is non-empty."
     ),
     "design_ref": "DESIGN.md 4 C03",
 }
@@ -49,18 +52,26 @@ META = {
 THEOREMS = [
     "C03_certificate_sound",
     "C03_good_names_meaning",
+    "C03_flip_names",
+    "C03_alcoholic_names",
+    "C03_water_names",
     "C03_flip_names_table",
     "C03_alcoholic_names_table",
     "C03_water_names_table",
-    "C03_carboxylic_names_table",
+    "C03_carboxylic_names_partial",
     "C03_flip_nohb_table",
     "C03_water_nohb_table",
     "C03_water_names_refuted",
+    "C03_layers_agree",
+    "C03_layer_keyerror",
+    "C03_repair_add_complete",
+    "C03_rebuild_templates_table",
     "C03_partition_no_loss_no_dup",
+    "C03_ligand_step_once",
     "C03_patch_removals_table",
     "C03_nonvacuous",
+    "C03_nonvacuous_repair",
 ]
-
 HEADER = (
     "From Coq Require Import String List Bool.\nFrom PV Require Import Lib.Strings Model.NameProtocol.\n"
     "Import ListNotations.\nOpen Scope string_scope.\n"
@@ -252,6 +263,30 @@ def build_structures(ctx):
     miss = [r for r in pep if not (r.resseq == 4 and r.name in ("CE1", "CZ")) and not (r.resseq == 3 and r.name == "ND2")]
     out.append(("missing-heavy", miss, {"missing": True}))
     out.append(("extra+missing", with_extra(miss), {"extra": [("A", 2, "XX1"), ("A", 2, "HX9")], "missing": True}))
+    # 7. random side-chain deletions (whole side chains too) on a 20-residue peptide, one unknown atom
+    for k in range(3):
+        seq = aas[:]
+        rng.shuffle(seq)
+        pep2 = B.build_peptide(seq, chain="A")
+        side = [a for a in pep2 if a.name not in ("N", "CA", "C", "O", "OXT")]
+        kill = set()
+        whole = rng.choice([r for r in range(2, 20) if seq[r - 1] not in ("GLY", "ALA")])
+        if k == 1:
+            kill |= {(a.resseq, a.name) for a in side if a.resseq == whole and a.name != "CB"}
+        for a in rng.sample(side, 4):
+            kill.add((a.resseq, a.name))
+        kept = [a for a in pep2 if (a.resseq, a.name) not in kill]
+        anchor = [a for a in kept if a.resseq == 7 and a.name == "CA"][0]
+        xb = replace(anchor.at(anchor.xyz + 1.1), name="XQ", element="C")
+        kk = max(i for i, a in enumerate(kept) if a.resseq == 7)
+        kept = kept[: kk + 1] + [xb] + kept[kk + 1 :]
+        out.append((f"missing-rand{k}", kept, {"extra": [("A", 7, "XQ")], "missing": True}))
+    # 7b. an N-terminal residue that lost its backbone: the rebuild loop has to defer atoms
+    seqd = ["LYS", "GLY", "SER", "LEU", "ARG", "VAL", "ALA", "GLU", "PHE", "ALA", "GLY", "ALA", "LEU", "ALA", "VAL", "ALA", "THR", "ALA", "GLY", "ALA"]
+    pd = B.build_peptide(seqd, chain="A")
+    out.append(("missing-deferral", [a for a in pd if not (a.resseq == 1 and a.name in ("N", "CA", "C", "O", "CB", "CE"))], {"missing": True}))
+    # 8. a backbone atom missing as well (repair may have to give up)
+    out.append(("missing-backbone", [a for a in pep if not (a.resseq == 3 and a.name in ("CA", "CB", "CG"))], {"missing": True}))
     return out
 
 
@@ -411,21 +446,154 @@ def run_structure(ctx, atoms, opts, ff, veto=None, monitor=True, phrng=None):
             saved.append((hopt.Optimize, "get_hbond_angle", o3))
     text = B.to_pdb(atoms)
     mon = G.Monitor()
+    rmon = RepairMonitor()
     try:
         if monitor:
-            with mon.active():
+            with mon.active(), rmon.active():
                 r = B.run_pdb2pqr(text, args, workdir=ctx.scratch_dir())
         else:
             r = B.run_pdb2pqr(text, args, workdir=ctx.scratch_dir())
     finally:
         for obj, name, old in saved:
             setattr(obj, name, old)
+    r["rmon"] = rmon
     r["args"] = args
     r["free"] = bool(veto is not None and getattr(veto, "free", False))
     r["mon"] = mon
     r["pdb_text"] = text
     return r
 
+
+
+# --------------------------------------------------------------------------
+# repair_heavy / add_hydrogens accounting: real per-residue effect vs the model
+
+
+class RepairMonitor:
+    """Wraps Biomolecule.repair_heavy and add_hydrogens; per amino residue records the names
+    before and after, what the reference offers, and what was logged."""
+
+    def __init__(self):
+        self.repair = []  # dicts
+        self.addh = []
+
+    def active(self):
+        import contextlib
+
+        from pdb2pqr import aa, biomolecule
+
+        mon = self
+
+        @contextlib.contextmanager
+        def cm():
+            o_rep = biomolecule.Biomolecule.repair_heavy
+            o_add = biomolecule.Biomolecule.add_hydrogens
+            lg = logging.getLogger("pdb2pqr.biomolecule")
+
+            class H(logging.Handler):
+                def __init__(self):
+                    super().__init__(logging.WARNING)
+                    self.msgs = []
+
+                def emit(self, record):
+                    self.msgs.append(record.getMessage())
+
+            def snap(bio):
+                out = []
+                for res in bio.residues:
+                    if not isinstance(res, aa.Amino):
+                        continue
+                    ref = res.reference
+                    near = {}
+                    for an in ref.map:
+                        try:
+                            near[an] = list(ref.get_nearest_bonds(an))
+                        except KeyError:
+                            pass
+                    out.append({"res": res, "key": str(res), "before": [a.name for a in res.atoms], "ref": list(ref.map.keys()), "near": near,
+                                "pn": res.peptide_n is not None, "pc": res.peptide_c is not None,
+                                "ssb": bool(isinstance(res, aa.CYS) and res.ss_bonded)})
+                return out
+
+            def repair(self_):
+                h = H()
+                old = lg.level
+                lg.addHandler(h)
+                lg.setLevel(logging.WARNING)
+                try:
+                    anym = self_.num_missing_heavy > 0
+                finally:
+                    pass
+                recs = snap(self_)
+                h.msgs.clear()
+                err = None
+                try:
+                    return o_rep(self_)
+                except ValueError as e:
+                    err = str(e)
+                    raise
+                finally:
+                    lg.removeHandler(h)
+                    lg.setLevel(old)
+                    for r in recs:
+                        r["after"] = [a.name for a in r["res"].atoms]
+                        r["any_missing"] = anym
+                        r["logged"] = [m.split()[2] for m in h.msgs if m.startswith("Extra atom ") and m.split(" in ", 1)[1].startswith(r["key"] + "!")]
+                        r["error"] = err if (err and f"residue {r['key']} in structure" in err) else None
+                        del r["res"]
+                    # residues after the raising one were not processed
+                    if err:
+                        k = [i for i, r in enumerate(recs) if r["error"]]
+                        recs = recs[: k[0] + 1] if k else []
+                    mon.repair += recs
+
+            def addh(self_, hlist=None):
+                h = H()
+                old = lg.level
+                lg.addHandler(h)
+                lg.setLevel(logging.WARNING)
+                recs = snap(self_)
+                try:
+                    return o_add(self_, hlist)
+                finally:
+                    lg.removeHandler(h)
+                    lg.setLevel(old)
+                    for r in recs:
+                        r["after"] = [a.name for a in r["res"].atoms]
+                        r["failed"] = [m.split()[2] for m in h.msgs if m.startswith("Couldn't rebuild ") and m.endswith(f"in {r['key']}!")]
+                        del r["res"]
+                    mon.addh += recs
+
+            biomolecule.Biomolecule.repair_heavy = repair
+            biomolecule.Biomolecule.add_hydrogens = addh
+            try:
+                yield mon
+            finally:
+                biomolecule.Biomolecule.repair_heavy = o_rep
+                biomolecule.Biomolecule.add_hydrogens = o_add
+
+        return cm()
+
+
+def repair_terms(rm):
+    """[(term, expected string, case)] for the recorded residues."""
+    out = []
+    for r in rm.repair:
+        miss = [x for x in r["ref"] if not x.startswith("H") and x not in ("N+1", "C-1") and x not in r["before"]]
+        near = L(f"({S(a)}, {L(map(S, r['near'].get(a, [])))})" for a in miss)
+        term = (f"show_rres (repair_heavy {L(map(S, r['ref']))} (feas_tab {near} {'true' if r['pn'] else 'false'} {'true' if r['pc'] else 'false'}) "
+                f"{'true' if r['any_missing'] else 'false'} {L(map(S, r['before']))})")
+        if r["error"]:
+            exp = "ValueError " + r["error"].split("Heavy atoms missing from", 1)[1].split(":", 1)[1].strip()
+        else:
+            exp = "DONE " + " ".join(r["after"]) + " | logged " + " ".join(r["logged"])
+        out.append((term, exp.strip(), {"what": "repair_heavy", "residue": r["key"], "before": r["before"], "after": r["after"], "logged": r["logged"]}))
+    for r in rm.addh:
+        hf = f"(fun r _ => negb (mem r {L(map(S, r['failed']))}))"
+        term = (f"match add_hydrogens {L(map(S, r['ref']))} {hf} {'true' if r['ssb'] else 'false'} (mkW {L(map(S, r['before']))} []) with "
+                f"Some w => show_names (w_names w) | None => \"ANOMALY\" end")
+        out.append((term, " ".join(r["after"]), {"what": "add_hydrogens", "residue": r["key"], "before": r["before"], "after": r["after"], "failed": r["failed"]}))
+    return out
 
 # --------------------------------------------------------------------------
 # correspondence 2: trace inclusion
@@ -1020,7 +1188,9 @@ def run(ctx):
     plan = []
     for i, (tag, atoms, meta) in enumerate(structs):
         for j, opts in enumerate(OPTION_SETS):
-            full = tag.startswith(("all20", "variants", "carboxyl", "extra", "missing", "fliprich"))
+            full = tag.startswith(("all20", "variants", "carboxyl", "extra", "fliprich")) or tag in ("missing-heavy",)
+            if tag.startswith(("missing-rand", "missing-backbone", "missing-deferral")) and opts not in ([], ["--nodebump"], ["--noopt"]):
+                continue
             if tag.startswith(("twodonor", "donacc")) and opts not in ([], ["--nodebump"]):
                 continue
             if not ctx.thorough and not full and (i + j) % 3 != 0 and opts not in ([],):
@@ -1046,6 +1216,12 @@ def run(ctx):
         ctx.evaluated(key, finished and "--clean" not in opts and "--assign-only" not in opts)
         if finished and len(ctx.cov["samples"]) < 3:
             ctx.sample({"structure": tag, "args": r["args"], "atoms_in": len(atoms), "pqr_lines": len((r["pqr_text"] or "").splitlines()), "unassigned": len(r["result"][0] or []), "failures": nf})
+        if r.get("rmon") is not None:
+            for term, exp, case in repair_terms(r["rmon"]):
+                if term not in rseen and len(rterms) < (4000 if ctx.thorough else 700):
+                    rseen.add(term)
+                    case.update(structure=tag, args=r["args"], pdb=r["pdb_text"])
+                    rterms.append((term, exp, case))
         if finished or r["mon"].done:
             for rec in r["mon"].order:
                 ctx.count("protocol-object:" + rec.kind)
@@ -1072,6 +1248,7 @@ def run(ctx):
                 except G.GenError:
                     pass
     terms, owners = [], []
+    rterms, rseen = [], set()
     budget = 150 if not ctx.thorough else 1500
     import random
 
@@ -1109,6 +1286,20 @@ def run(ctx):
     except core.CoqEvalError as e:
         corr_broken = True
         ctx.broke("correspondence-broken", "trace acceptor evaluation failed", str(e)[:1500])
+    # repair_heavy / add_hydrogens per residue vs the model
+    try:
+        routs = core.run_cases("C03rep", HEADER, [x[0] for x in rterms], chunk=60)
+        for (term, exp, case), o in zip(rterms, routs):
+            ctx.cov["correspondence_cases"] += 1
+            ctx.count("repair-corr:" + case["what"])
+            if o.strip() != exp.strip():
+                ctx.cov["correspondence_disagreements"] += 1
+                corr_broken = True
+                if len([b for b in ctx.broken if "repair" in b["what"] or "add_hydrogens" in b["what"]]) < 4:
+                    ctx.broke("correspondence-broken", f"Model.NameProtocol.{case['what']} vs Biomolecule.{case['what']} (one residue)", f"model={o!r} real={exp!r}", case)
+    except core.CoqEvalError as e:
+        corr_broken = True
+        ctx.broke("correspondence-broken", "repair model evaluation failed", str(e)[:1500])
     ctx.sample({"obligation": "C03_flip_names_table: forall i in instances, forall step lists, complete leaves exactly the expected names"})
     ctx.trusted += [
         "gen/c03_table.py: ast scan for apply_patch literals; instances observed through the monitor on builder peptides",
